@@ -69,6 +69,10 @@ struct Cfg {
     kind: usize,
     /// (rank, behaviour) of the varying endpoints
     vary: Vec<(usize, usize)>,
+    /// An earlier, completed lookup of the same target (its kind), after which the endpoints at
+    /// the given ranks fall silent; the judged lookup starts 60 s later, inside the 5-minute
+    /// life of the cached responders.
+    repeat: Option<(usize, Vec<usize>)>,
 }
 
 const PUT_VALUE: &[u8] = b"c07 value";
@@ -206,6 +210,32 @@ fn scenario(chooser: Chooser, cfg: &Cfg, faults: bool, track: bool) -> (Chooser,
         }
         false
     });
+    if let Some((first_kind, silent_ranks)) = &cfg.repeat {
+        let c0 = match first_kind {
+            0 => w.call_find_node(a, target.into()),
+            1 => w.call_get_closest_nodes(a, target.into()),
+            _ => w.call_get_peers(a, target.into()),
+        };
+        let h = w.now + 60 * SEC;
+        w.run_until(h, |w, ev| {
+            if let Event::EndpointRecv { ep, dgram } = ev {
+                net.handle(w, *ep, dgram);
+            }
+            w.result(c0).is_some()
+        });
+        for r in silent_ranks {
+            if let Some(i) = ep_at_rank(*r) {
+                net.eps[i].silent = true;
+            }
+        }
+        let h = w.now + 60 * SEC;
+        w.run_until(h, |w, ev| {
+            if let Event::EndpointRecv { ep, dgram } = ev {
+                net.handle(w, *ep, dgram);
+            }
+            false
+        });
+    }
     let table: Vec<(Id20, SocketAddrV4)> = {
         let s = w.snapshot(a);
         s.core.routing_table.buckets.iter().flat_map(|(_, b)| b.iter().map(|n| (*n.id.as_bytes(), n.address))).collect()
@@ -473,8 +503,22 @@ fn configs(tier: Tier) -> Vec<Cfg> {
                         if kind == 4 && !vary.is_empty() && !vary.iter().any(|(_, b)| BEHS[*b] == Beh::ValueSoleWitness) {
                             continue;
                         }
-                        v.push(Cfg { m, knowledge, kind, vary });
+                        v.push(Cfg { m, knowledge, kind, vary, repeat: None });
                     }
+                }
+            }
+        }
+    }
+    // a second lookup of a target whose first lookup is still cached, after some of its closest
+    // responders fell silent: what it reports are the nodes that answered *it*
+    for m in [5usize, 23] {
+        for first in 0..3usize {
+            for kind in 0..3usize {
+                for silent in [vec![], vec![1], vec![2], vec![1, 2], vec![20]] {
+                    if silent.iter().any(|r| *r > m) {
+                        continue;
+                    }
+                    v.push(Cfg { m, knowledge: 0, kind, vary: vec![], repeat: Some((first, silent)) });
                 }
             }
         }
@@ -485,14 +529,14 @@ fn configs(tier: Tier) -> Vec<Cfg> {
     for &m in bigs {
         for knowledge in 0..3 {
             for kind in 0..5 {
-                v.push(Cfg { m, knowledge, kind, vary: vec![] });
+                v.push(Cfg { m, knowledge, kind, vary: vec![], repeat: None });
                 if !tier.is_quick() && kind < 4 {
                     for rank in [1usize, 20, 21] {
                         for b in 0..nb {
                             if BEHS[b] == Beh::ValueSoleWitness {
                                 continue;
                             }
-                            v.push(Cfg { m, knowledge, kind, vary: vec![(rank, b)] });
+                            v.push(Cfg { m, knowledge, kind, vary: vec![(rank, b)], repeat: None });
                         }
                     }
                 }
@@ -503,7 +547,7 @@ fn configs(tier: Tier) -> Vec<Cfg> {
 }
 
 fn cfg_json(c: &Cfg) -> Value {
-    json!({"m": c.m, "knowledge": c.knowledge, "kind": c.kind, "vary": c.vary.iter().map(|(r, b)| json!([r, b])).collect::<Vec<_>>()})
+    json!({"m": c.m, "knowledge": c.knowledge, "kind": c.kind, "vary": c.vary.iter().map(|(r, b)| json!([r, b])).collect::<Vec<_>>(), "repeat": c.repeat.as_ref().map(|(f, s)| json!([f, s]))})
 }
 
 fn cfg_desc(c: &Cfg) -> String {
@@ -530,11 +574,14 @@ fn record(c: &Cfg, choices: &[u32], o: &Out, out: &mut Partial) {
     if o.requests > 20 {
         out.add("lookups_with_more_than_20_requests", 1);
     }
+    if c.repeat.is_some() {
+        out.add("second_lookups_within_cache_life", 1);
+    }
     for (key, desc) in &o.violations {
         let behs: Vec<String> = c.vary.iter().map(|(_, b)| format!("{:?}", BEHS[*b])).collect();
         out.violation(
-            format!("{key}/{}/m{}/{}", KINDS[c.kind], c.m, behs.join("+")),
-            format!("{}: {desc}{}", cfg_desc(c), if choices.iter().any(|c| *c > 0) { format!(" (latency deviations {choices:?})") } else { String::new() }),
+            format!("{key}/{}/m{}/{}{}", KINDS[c.kind], c.m, behs.join("+"), if c.repeat.is_some() { "/second-lookup-within-cache-life" } else { "" }),
+            format!("{}{}: {desc}{}", cfg_desc(c), c.repeat.as_ref().map(|(f, s)| format!(" [60 s after a completed {} of the same target, endpoints at ranks {s:?} silent since]", KINDS[*f])).unwrap_or_default(), if choices.iter().any(|c| *c > 0) { format!(" (latency deviations {choices:?})") } else { String::new() }),
             json!({"cfg": cfg_json(c), "choices": choices}),
         );
     }
@@ -560,7 +607,7 @@ fn run(tier: Tier, shard: usize, nshards: usize, _seed: u64) -> Partial {
         // every single latency deviation (answers overtaking each other) on the base
         // configurations (no varying endpoints) and, in the thorough tier, on the
         // single-variation ones at ranks 20/21
-        let base: Vec<&Cfg> = cfgs.iter().filter(|c| c.m <= 60).filter(|c| c.vary.is_empty() || (!tier.is_quick() && c.vary.len() == 1 && (c.vary[0].0 == 20 || c.vary[0].0 == 21))).collect();
+        let base: Vec<&Cfg> = cfgs.iter().filter(|c| c.m <= 60 && c.repeat.is_none()).filter(|c| c.vary.is_empty() || (!tier.is_quick() && c.vary.len() == 1 && (c.vary[0].0 == 20 || c.vary[0].0 == 21))).collect();
         for (i, c) in base.iter().enumerate() {
             if i % nshards != shard {
                 continue;
@@ -594,6 +641,7 @@ fn replay(v: &Value) -> Result<Option<Violation>, String> {
             .iter()
             .filter_map(|p| Some((p.get(0)?.as_u64()? as usize, p.get(1)?.as_u64()? as usize)))
             .collect(),
+        repeat: c.get("repeat").and_then(|r| r.as_array()).and_then(|r| Some((r.first()?.as_u64()? as usize, r.get(1)?.as_array()?.iter().filter_map(|x| x.as_u64().map(|x| x as usize)).collect()))),
     };
     let choices: Vec<u32> = v.get("choices").and_then(|c| c.as_array()).map(|a| a.iter().filter_map(|x| x.as_u64().map(|x| x as u32)).collect()).unwrap_or_default();
     let faults = choices.iter().any(|c| *c > 0);
